@@ -55,6 +55,13 @@ Proof.
   - exfalso. apply (find_arm_none _ _ E s). apply filter_holds. split; [apply group_holds; exact H | exact A].
 Qed.
 
+(* implicit mapping (const-valued tag properties): when synthesis succeeds, the mapping is functional, EVERY member
+   of the union gets a tag (so, by C14_union_dispatch, every member is reachable), and each tag is that member's const *)
+Theorem C14_const_mapping : forall members consts m, synth members consts = Some m ->
+  functional m /\ (forall s, In s members -> exists t, In (t, s) m)
+  /\ (forall t s, In (t, s) m -> In s members /\ consts s = Some (Some t)).
+Proof. exact synth_spec. Qed.
+
 (* ... but a member of the union that the mapping does not mention gets no arm at all: it is dropped from the
    generated enum (known finding; the witness is the replay) *)
 Theorem C14_unmapped_member_dropped_refuted : exists members m d v,
@@ -91,4 +98,5 @@ Print Assumptions C14_base_dispatch.
 Print Assumptions C14_base_unmapped.
 Print Assumptions C14_members_reachable.
 Print Assumptions C14_union_dispatch.
+Print Assumptions C14_const_mapping.
 Print Assumptions C14_unmapped_member_dropped_refuted.
